@@ -12,9 +12,9 @@ EXHAUSTIVE = False
 RULE = ("poly.ring cases for every pair of lengths 0..9 (the empty polynomial and degrees 0..8, either operand longer) "
         "over Rat (small fractions), f64 and Complex<f64> (small integers: every intermediate exactly representable; in the quick tier each "
         "pair of non-empty lengths goes to one of the two float kinds, by parity of lp+lq; thorough: all pairs for all kinds, 4 value samples); "
-        "poly.calc for every length of p with 5 lengths of q (all pairs in the thorough tier), "
+        "poly.calc for every length of p with 5 (Rat) / 2 (float kinds) lengths of q (all pairs in the thorough tier), "
         "derivative orders 0..len+1 (= degree+2, one beyond the quantifier); poly.access for every length 0..5 x every index 0..len+1; "
-        "poly.ctor; values sampled (seeded), shapes exhaustive; distinct = distinct executor line; "
+        "poly.ctor; a family of general (inexact) f64/Complex operands for the bitwise tie (order of floating-point operations; oracle within 1e-9 of a magnitude bound); values sampled (seeded), shapes exhaustive; distinct = distinct executor line; "
         "non-trivial = both operands of degree >= 1 (ring/calc), non-empty polynomial (access)")
 TRUSTED = ["Coq 8.16.1 kernel + vm_compute (primitive floats bit-exact)", "Rust executor /verif/harness (Rat = i128 rationals; k_poly.rs uses the public Polynomial API only)",
            "python driver: generators, textbook coefficient-list reference in Fraction / Gaussian rationals (driver/polylib.py), stream comparators",
@@ -31,8 +31,10 @@ MANIFEST = dict(
     text=("Theorems over any commutative ring (all lengths, all coefficient values) about the Gallina model of src/polynomial: coefficient "
           "formulae of + - neg scalar-multiple product (convolution sum) and derivative, result lengths, Horner evaluation = sum a_i x^i and "
           "is additive / multiplicative / commutes with negation and scaling, the empty polynomial is neutral for + - and absorbing for *, "
-          "the derivative is linear and satisfies the product rule, derivative_n p (deg+1) is empty; instantiated at Qc. The same Gallina "
+          "the derivative is linear and satisfies the product rule (as equalities of coefficient lists), derivative_n p (deg+1) is empty and higher "
+          "orders panic; is_zero / trim / index specifications (where == decides equality); instantiated at Qc. The same Gallina "
           "functions are run against the implementation (Rat vs Qc exact; f64 and Complex<f64> bitwise) on every pair of lengths 0..9, "
+          "plus general inexact floats (bitwise: pins the order of the floating-point operations), "
           "and an independent textbook coefficient-list model in exact arithmetic searches for a failing input."),
     note=("eval/derivative of the empty polynomial panic (code and model alike) and are outside the 'acts as zero' claim; "
           "operand non-mutation and owned=borrowed forms are observed at run time, not proved."),
@@ -67,7 +69,9 @@ def generate(rng, tier):
         g = rng.fork("calc-" + elt)
         for lp in range(L + 1):
             # every length of p; q cycles through all lengths (all pairs in the thorough tier)
-            lqs = range(L + 1) if tier == "thorough" else [(lp * 3 + k * 4 + 1) % (L + 1) for k in range(3)] + [0, lp]
+            if tier == "thorough": lqs = range(L + 1)
+            elif elt == 'rat': lqs = [(lp * 3 + k * 4 + 1) % (L + 1) for k in range(3)] + [0, lp]
+            else: lqs = [(lp * 3 + (1 if elt == 'f64' else 5)) % (L + 1), lp if lp % 2 == (0 if elt == 'f64' else 1) else 0]
             for lq in lqs:
                 p, q = rpoly(g, elt, lp), rpoly(g, elt, lq)
                 x, s = xval(g, elt), sval(g, elt)
@@ -87,6 +91,23 @@ def generate(rng, tier):
         g = rng.fork("ctor-" + elt)
         for _ in range(3):
             cases.append(mk_case(elt, "ctor", [sval(g, elt) for _ in range(4)], "ctor-" + elt))
+    # general floats (not exactly representable; rounding at every step): the bitwise tie then pins the ORDER of the
+    # floating-point operations of eval / product / derivative; the oracle compares within 1e-9 * (magnitude bound)
+    for elt in ('f64', 'cplx'):
+        g = rng.fork("general-" + elt)
+        def gv():
+            v = (g.unit() * 9.9 + 0.1) * (1 if g.chance(1, 2) else -1)
+            return v if elt == 'f64' else complex(v, (g.unit() - 0.5) * 8)
+        def gx():
+            v = (g.unit() - 0.5) * 3
+            return v if elt == 'f64' else complex(v, (g.unit() - 0.5) * 2)
+        for k in range(36 if tier == "thorough" else 12):
+            lp, lq = g.range(1, 6), g.range(1, 6)
+            p, q = [gv() for _ in range(lp)], [gv() for _ in range(lq)]
+            for kind, vals in (("ring", [p, q, gx(), gv()]), ("calc", [p, q, gx(), gv(), lp + 1])):
+                c = mk_case(elt, kind, vals, "general-%s-%s" % (kind, elt), nontrivial=(lp >= 2 and lq >= 2))
+                c.meta["approx"] = True
+                cases.append(c)
     # printing 64-bit patterns dominates the model run: mix the element kinds so that the coqc shards are balanced
     return rng.fork("order").shuffle(cases)
 
@@ -97,6 +118,17 @@ def case_from_json(j):
     return case_from_json_common(j, ("ring", "calc", "access", "ctor"))
 
 # ------------------------------------------------------------------ oracle
+_TOL = None      # None: exact comparison; otherwise an absolute tolerance (general-float cases, see generate())
+
+def _eq(a, b):
+    if _TOL is None: return a == b
+    d = a - b
+    return mag(d) <= _TOL
+
+def _same_fn(p, q):
+    n = max(len(p), len(q))
+    return all(_eq((p[i] if i < len(p) else 0), (q[i] if i < len(q) else 0)) for i in range(n))
+
 def _show(p):
     return "[" + ", ".join(str(a) for a in p) + "]" if isinstance(p, list) else str(p)
 
@@ -106,13 +138,13 @@ def _exp_poly(name, got, exp):
     if len(got) != len(exp):
         return "%s has %d coefficients, the textbook result has %d (%s vs %s)" % (name, len(got), len(exp), _show(got), _show(exp))
     for k, (a, b) in enumerate(zip(got, exp)):
-        if not (a == b): return "%s: coefficient %d is %s, the textbook formula gives %s" % (name, k, a, b)
+        if not _eq(a, b): return "%s: coefficient %d is %s, the textbook formula gives %s" % (name, k, a, b)
     return None
 
 def _exp_scalar(name, got, exp):
     if got == 'P': return "%s panicked; expected %s" % (name, exp)
     if is_nonfinite(got): return "%s is not finite; expected %s" % (name, exp)
-    if not (got == exp): return "%s = %s, expected %s" % (name, got, exp)
+    if not _eq(got, exp): return "%s = %s, expected %s" % (name, got, exp)
     return None
 
 def oracle_ring(elt, vals, st):
@@ -145,7 +177,7 @@ def oracle_ring(elt, vals, st):
         vp, vq = ev[0], ev[1]
         laws = [("p+q", ev[2], vp + vq), ("p-q", ev[3], vp - vq), ("p*q", ev[4], vp * vq), ("-p", ev[5], -vp), ("p*s", ev[6], vp * S)]
         for nm, a, b in laws:
-            if not (a == b): return "eval(%s)(x) = %s but the same combination of eval(p)(x)=%s, eval(q)(x)=%s gives %s" % (nm, a, vp, vq, b)
+            if not _eq(a, b): return "eval(%s)(x) = %s but the same combination of eval(p)(x)=%s, eval(q)(x)=%s gives %s" % (nm, a, vp, vq, b)
     return None
 
 def oracle_calc(elt, vals, st):
@@ -182,7 +214,7 @@ def oracle_calc(elt, vals, st):
         if m: return m
     for a, b, law in (("(p+q)'", "p'+q'", "linearity (sum)"), ("(p*q)'", "p'*q+p*q'", "product rule"), ("(p*s)'", "p'*s", "linearity (scalar)")):
         if P and Q and got[a] != 'P' and got[b] != 'P':
-            if not same_poly_fn(got[a], got[b]):
+            if not _same_fn(got[a], got[b]):
                 return "%s fails: %s = %s but %s = %s" % (law, a, _show(got[a]), b, _show(got[b]))
     return None
 
@@ -214,9 +246,22 @@ def oracle_ctor(elt, vals, st):
     if st.int() != -1: return "degree() of the empty polynomial is not an error"
     return None
 
+def _scale(elt, kind, vals):
+    """a crude bound on every intermediate magnitude of a ring/calc case (general-float cases only)"""
+    import math
+    p, q, x, s = vals[0], vals[1], vals[2], vals[3]
+    cp = max([float(mag(exact(elt, a))) for a in p] + [1.0]); cq = max([float(mag(exact(elt, a))) for a in q] + [1.0])
+    ax = max(1.0, 2 * float(mag(exact(elt, x)))); asc = 1.0 + float(mag(exact(elt, s)))
+    n = len(p) + len(q) + 2
+    return cp * cq * asc * n * n * ax ** n * math.factorial(len(p) + 1)
+
 def oracle(case, items):
+    global _TOL
     kind, vals = case_vals(case)
     st = Stream(case.elt, items)
+    _TOL = None
+    if case.meta.get("approx"):
+        _TOL = Fraction(_scale(case.elt, kind, vals)) / 10 ** 9
     try:
         f = {"ring": oracle_ring, "calc": oracle_calc, "access": oracle_access, "ctor": oracle_ctor}[kind]
         m = f(case.elt, vals, st)
